@@ -109,9 +109,42 @@ impl crate::hist::StepOracle for UpToLimitProbe {
         }
         for u in 0..2usize {
             for b in 0..c.w.banks.len() {
-                let a = Action::Deposit { u, b, amt: 700_000_000_000, up_to_limit: Some(true) };
+                // a large amount, and amounts at and either side of the room that is left under the limit
+                let mut amts: Vec<u64> = vec![700_000_000_000];
+                {
+                    let n0 = rf::bank_nums(c.post, &c.w.banks[b]);
+                    let lim = crate::world::bank(c.post, &c.w.banks[b].key).config.deposit_limit;
+                    if lim != u64::MAX && rf::qu(lim) > n0.deposits() {
+                        let room = floor_u(&(rf::qu(lim) - n0.deposits()));
+                        for d in [-2i64, -1, 0, 1, 2] {
+                            let x = room as i64 + d;
+                            if x > 0 && u == 0 {
+                                amts.push(x as u64);
+                            }
+                        }
+                    }
+                }
+              for amt in amts {
+                let a = Action::Deposit { u, b, amt, up_to_limit: Some(true) };
                 let mut t = c.post.clone();
                 let r = act::apply(c.w, &mut t, &a);
+                if r.committed {
+                    // what the position was credited is at most what the user paid and at most the room under the limit
+                    let ta = c.w.users[u].tokens[&c.w.banks[b].mint];
+                    let paid = crate::world::token_amount(c.post, &ta) as i128 - crate::world::token_amount(&t, &ta) as i128;
+                    let (n0, n1) = (rf::bank_nums(c.post, &c.w.banks[b]), rf::bank_nums(&t, &c.w.banks[b]));
+                    // (the probe runs on a state that may be stale: both totals at the share values after the deposit)
+                    let credited = rf::q_raw(n1.a_sh - n0.a_sh) * rf::q_raw(n1.asv);
+                    let lim = crate::world::bank(c.post, &c.w.banks[b].key).config.deposit_limit;
+                    let slack = rf::ulp() * rf::qi(16) * (rf::qone() + rf::q_raw(n1.asv));
+                    if credited > rf::qi(paid) + slack.clone() {
+                        out.push(crate::mc::Violation {
+                            clause: "C17.up_to_limit_deposits_at_most_capacity".into(),
+                            detail: format!("after {:?}: {:?} credited {:.9} native units to the position while the user paid {} (deposit limit {}, deposits before {:.9})", c.a, a, rf::qf64(&credited), paid, lim, rf::qf64(&n0.deposits())),
+                        });
+                    }
+                    tags.push("probe_credit_checked");
+                }
                 if !r.committed && r.code == crate::hist::ERR_ASSET_CAPACITY {
                     let n = rf::bank_nums(c.post, &c.w.banks[b]);
                     let bank = crate::world::bank(c.post, &c.w.banks[b].key);
@@ -161,6 +194,7 @@ impl crate::hist::StepOracle for UpToLimitProbe {
                         out.push(crate::mc::Violation { clause: "C17.deposit_below_limit".into(), detail: format!("after {:?}: {:?} left deposits {:.6} >= limit {}", c.a, a, rf::qf64(&n.deposits()), bank.config.deposit_limit) });
                     }
                 }
+              }
             }
         }
     }
